@@ -696,30 +696,43 @@ package chain
 // and of the tip height `sheight` that the Store interface is specified with); applyState and
 // revertState are proved to move exactly one entry, which is what DBStore.ApplyBlock / RevertBlock
 // promise as implementations of Store.
-//@ func (*DBStore).putBestIndex
+// (what is checked of the three wrappers themselves: they do not commit -- a flush belongs to the
+// end of ApplyBlock / RevertBlock, after every write of the block)
+//@ func (*DBStore).putBestIndex props C03
 //@   assigns heap:DBStore, ghost:best
-//@   ensures db.db == old(db.db) && db.n == old(db.n)
-//@   ensures best == old(best)[index.Height := index.ID]
-//@ func (*DBStore).deleteBestIndex
+//@   frame assumed
+//@   requires db != nil
+//@   ensures [assumed:fields] db.db == old(db.db) && db.n == old(db.n)
+//@   ensures [assumed:point-update] best == old(best)[index.Height := index.ID]
+//@   ensures [no-commit] !mayHaveCalled("Flush")
+//@ func (*DBStore).deleteBestIndex props C03
 //@   assigns heap:DBStore, ghost:best
-//@   ensures db.db == old(db.db) && db.n == old(db.n)
-//@   ensures best == remove(old(best), height)
-//@ func (*DBStore).putHeight
+//@   frame assumed
+//@   requires db != nil
+//@   ensures [assumed:fields] db.db == old(db.db) && db.n == old(db.n)
+//@   ensures [assumed:point-update] best == remove(old(best), height)
+//@   ensures [no-commit] !mayHaveCalled("Flush")
+//@ func (*DBStore).putHeight props C03
 //@   assigns heap:DBStore, ghost:sheight
-//@   ensures db.db == old(db.db) && db.n == old(db.n)
-//@   ensures sheight == height
+//@   frame assumed
+//@   requires db != nil
+//@   ensures [assumed:fields] db.db == old(db.db) && db.n == old(db.n)
+//@   ensures [assumed:point-update] sheight == height
+//@   ensures [no-commit] !mayHaveCalled("Flush")
 //@ func (*DBStore).applyState props C03,C01,C02
 //@   assigns heap:DBStore, ghost:best, ghost:sheight
 //@   frame assumed
 //@   requires db != nil
 //@   ensures db.db == old(db.db) && db.n == old(db.n)
 //@   ensures [index] best == old(best)[next.Index.Height := next.Index.ID] && sheight == next.Index.Height
+//@   ensures [no-commit] !mayHaveCalled("Flush")
 //@ func (*DBStore).revertState props C03,C01,C02
 //@   assigns heap:DBStore, ghost:best, ghost:sheight
 //@   frame assumed
 //@   requires db != nil && prev.Index.Height < 18446744073709551615
 //@   ensures db.db == old(db.db) && db.n == old(db.n)
 //@   ensures [index] best == remove(old(best), prev.Index.Height + 1) && sheight == prev.Index.Height
+//@   ensures [no-commit] !mayHaveCalled("Flush")
 // (applyElements / revertElements: see C02 below)
 //@ func (*DBStore).shouldFlush
 //@   assigns nothing
@@ -951,6 +964,7 @@ package chain
 //@     invariant [exp-rest] forall id types.FileContractID :: { id in gExp } (forall d int :: { cau.FileContractElementDiffs()[d] } 0 <= d && d <= rangeindex ==> cau.FileContractElementDiffs()[d].FileContractElement.ID != id) ==> expSame(gExp, old(gExp), id)
 //@     invariant [done] forall d int :: { cau.FileContractElementDiffs()[d] } 0 <= d && d <= rangeindex ==> fcApplied(gFC, old(gFC), cau.FileContractElementDiffs()[d])
 //@     invariant [rest] forall id types.FileContractID :: { id in gFC } (forall d int :: { cau.FileContractElementDiffs()[d] } 0 <= d && d <= rangeindex ==> cau.FileContractElementDiffs()[d].FileContractElement.ID != id) ==> ((id in gFC) <==> (id in old(gFC))) && gFC[id] == old(gFC)[id]
+//@   ensures [no-commit] !mayHaveCalled("Flush")
 //@   ensures [fields] db.db == old(db.db) && db.n == old(db.n)
 //@   ensures [sc] forall d int :: { cau.SiacoinElementDiffs()[d] } 0 <= d && d < len(cau.SiacoinElementDiffs()) ==> scApplied(gSC, old(gSC), cau.SiacoinElementDiffs()[d])
 //@   ensures [sc-frame] forall id types.SiacoinOutputID :: { id in gSC } (forall d int :: { cau.SiacoinElementDiffs()[d] } 0 <= d && d < len(cau.SiacoinElementDiffs()) ==> cau.SiacoinElementDiffs()[d].SiacoinElement.ID != id) ==> ((id in gSC) <==> (id in old(gSC))) && gSC[id] == old(gSC)[id]
@@ -986,6 +1000,7 @@ package chain
 //@     invariant db == old(db) && db.db == old(db.db) && db.n == old(db.n) && gSF == loopentry(gSF) && gFC == loopentry(gFC)
 //@     invariant [done] forall d int :: { cru.SiacoinElementDiffs()[d] } 0 <= d && d <= rangeindex ==> scReverted(gSC, old(gSC), cru.SiacoinElementDiffs()[d])
 //@     invariant [rest] forall id types.SiacoinOutputID :: { id in gSC } (forall d int :: { cru.SiacoinElementDiffs()[d] } 0 <= d && d <= rangeindex ==> cru.SiacoinElementDiffs()[d].SiacoinElement.ID != id) ==> ((id in gSC) <==> (id in old(gSC))) && gSC[id] == old(gSC)[id]
+//@   ensures [no-commit] !mayHaveCalled("Flush")
 //@   ensures [fields] db.db == old(db.db) && db.n == old(db.n)
 //@   ensures [sc] forall d int :: { cru.SiacoinElementDiffs()[d] } 0 <= d && d < len(cru.SiacoinElementDiffs()) ==> scReverted(gSC, old(gSC), cru.SiacoinElementDiffs()[d])
 //@   ensures [sc-frame] forall id types.SiacoinOutputID :: { id in gSC } (forall d int :: { cru.SiacoinElementDiffs()[d] } 0 <= d && d < len(cru.SiacoinElementDiffs()) ==> cru.SiacoinElementDiffs()[d].SiacoinElement.ID != id) ==> ((id in gSC) <==> (id in old(gSC))) && gSC[id] == old(gSC)[id]
